@@ -114,6 +114,18 @@ def eval_own(c, rec):
                 res = k2.verify(sk)
                 for so in list(res.good_signatures) + list(res.bad_signatures):
                     blobs.append(('handed-out-%s-signature' % so.signature.type.name, bytes(so.signature)))
+                    import copy as _cp
+                    cpo = _cp.copy(so.signature)
+                    blobs.append(('copy-of-handed-out-%s-signature' % so.signature.type.name, bytes(cpo)))
+                    # ... and the copy is the same signature: it verifies over the same subject
+                    if so not in list(res.good_signatures):
+                        continue
+                    try:
+                        okc = bool(k2.verify(sk, cpo))
+                    except Exception as ex:   # noqa
+                        okc = repr(ex)
+                    if okc is not True:
+                        rec.finding('own-roundtrip', 'copy-of-handed-out-signature-does-not-verify/' + so.signature.type.name, c, str(okc))
         else:
             spec = c['msg']
             msg = enckit.build_pgpy_message(spec)
